@@ -374,8 +374,12 @@ class Report:
         ev = dict(property_id=prop, tier=self.tier, seed=self.seed, level="proof",
                   coverage=cov, assumptions=self.assumptions, wall_s=wall,
                   violations=0 if violation is None else 1)
-        os.makedirs(os.path.join(VERIF, "evidence"), exist_ok=True)
-        with open(os.path.join(VERIF, "evidence", prop + ".json"), "w") as f:
+        # VERIF_NO_EVIDENCE=1 (used by tools/try_seeded.sh): the run is against a deliberately
+        # broken copy, keep the committed evidence of the real tree untouched
+        edir = os.path.join(VERIF, "evidence") if not os.environ.get("VERIF_NO_EVIDENCE") \
+            else os.path.join(VERIF, "replays", "evidence-seeded")
+        os.makedirs(edir, exist_ok=True)
+        with open(os.path.join(edir, prop + ".json"), "w") as f:
             json.dump(ev, f, indent=1, default=str)
         for sig, f in sorted(seen_known.items()):
             print("KNOWN-FINDING: property=%s %s" % (prop, known_sigs[sig]["text"]))
